@@ -46,59 +46,98 @@ func ruleV9(c *Ctx, id string) {
 	direntsz := constOfPkg(P, "dir", "DIRENTSZ")
 	n := 0
 	for _, h := range c.V.NfsProcs {
-		for _, b := range h.Blocks {
-			for _, in := range b.Instrs {
-				call, ok := in.(*ssa.Call)
-				if !ok || call.Call.StaticCallee() == nil || !IsRepoFunc(call.Call.StaticCallee()) {
-					continue
-				}
-				var cookie ssa.Value
-				for _, a := range call.Call.Args {
-					if _, path := paramFieldPath(a); path == "Cookie" {
-						cookie = a
-					}
-				}
-				if cookie == nil {
-					continue
-				}
-				// only calls that lead to a directory scan (decoding entries) use the cookie as an offset
-				if dec := P.Func("dir.decodeDirEnt"); dec != nil {
-					if !P.Reach([]*ssa.Function{call.Call.StaticCallee()}, func(f *ssa.Function) bool { return !IsRepoFunc(f) })[dec] {
+		hsc := scopesOf(h)
+		req := requestParam(h)
+		for _, sc := range hsc {
+			for _, b := range sc.Fn.Blocks {
+				for _, in := range b.Instrs {
+					call, ok := in.(*ssa.Call)
+					if !ok || call.Call.StaticCallee() == nil || !IsRepoFunc(call.Call.StaticCallee()) {
 						continue
 					}
-				}
-				n++
-				mk := func(subj ssa.Value) func(Cond) (bool, bool) {
-					return func(cd Cond) (bool, bool) {
-						if cd.X == nil || cd.Y == nil {
-							return false, false
+					var cookie ssa.Value
+					for _, a := range call.Call.Args {
+						if _, path := paramFieldPath(a); path == "Cookie" {
+							cookie = a
+						} else if pm, path := canonPath(a, sc.S); pm != nil && pm == req && path == "Cookie" {
+							cookie = a
 						}
-						rem, ok := stripConv(cd.X).(*ssa.BinOp)
-						if !ok || rem.Op != token.REM {
-							return false, false
+					}
+					if cookie == nil {
+						continue
+					}
+					// only calls that lead to a directory scan (decoding entries) use the cookie as an offset
+					if dec := P.Func("dir.decodeDirEnt"); dec != nil {
+						if !P.Reach([]*ssa.Function{call.Call.StaticCallee()}, func(f *ssa.Function) bool { return !IsRepoFunc(f) })[dec] {
+							continue
 						}
-						k, isk := constInt(stripConv(rem.Y))
-						z, isz := constInt(stripConv(cd.Y))
-						if !isk || k != direntsz || !isz || z != 0 {
-							return false, false
-						}
-						if !(stripConv(rem.X) == stripConv(subj) || sameParamField(rem.X, subj)) {
-							if cv, ok := rem.X.(*ssa.Convert); !ok || !(stripConv(cv.X) == stripConv(subj) || sameParamField(cv.X, subj)) {
+					}
+					n++
+					mk := func(subj ssa.Value) func(Cond) (bool, bool) {
+						return func(cd Cond) (bool, bool) {
+							if cd.X == nil || cd.Y == nil {
 								return false, false
 							}
+							rem, ok := stripConv(cd.X).(*ssa.BinOp)
+							if !ok || rem.Op != token.REM {
+								return false, false
+							}
+							k, isk := constInt(stripConv(rem.Y))
+							z, isz := constInt(stripConv(cd.Y))
+							if !isk || k != direntsz || !isz || z != 0 {
+								return false, false
+							}
+							if !(stripConv(rem.X) == stripConv(subj) || sameParamField(rem.X, subj)) {
+								if cv, ok := rem.X.(*ssa.Convert); !ok || !(stripConv(cv.X) == stripConv(subj) || sameParamField(cv.X, subj)) {
+									return false, false
+								}
+							}
+							if cd.Op == token.NEQ {
+								return true, false
+							}
+							if cd.Op == token.EQL {
+								return true, true
+							}
+							return false, false
 						}
-						if cd.Op == token.NEQ {
-							return true, false
-						}
-						if cd.Op == token.EQL {
-							return true, true
-						}
-						return false, false
 					}
+					g := guardedByS(h, call.Block(), cookie, mk, 0)
+					if !g {
+						// in a helper or function literal of the handler: the same quantity by its access path
+						g = guardedUp(hsc, sc, call.Block(), func(sub Subst) func(Cond) (bool, bool) {
+							return func(cd Cond) (bool, bool) {
+								if cd.X == nil || cd.Y == nil {
+									return false, false
+								}
+								rem, ok := stripConv(cd.X).(*ssa.BinOp)
+								if !ok || rem.Op != token.REM {
+									return false, false
+								}
+								k, isk := constInt(stripConv(rem.Y))
+								z, isz := constInt(stripConv(cd.Y))
+								if !isk || k != direntsz || !isz || z != 0 {
+									return false, false
+								}
+								x := stripConv(rem.X)
+								if cv, isC := x.(*ssa.Convert); isC {
+									x = stripConv(cv.X)
+								}
+								if !samePathX(x, sub, cookie, sc.S) {
+									return false, false
+								}
+								if cd.Op == token.NEQ {
+									return true, false
+								}
+								if cd.Op == token.EQL {
+									return true, true
+								}
+								return false, false
+							}
+						})
+					}
+					R.Analysed[FuncName(h)] = true
+					R.Check(g, id, h.Name()+"|cookie entry-aligned", P.Pos(call.Pos()), "the scan starts only at a cookie that is a multiple of DIRENTSZ", "guard dominates", "a cookie such as 1 makes the scan decode bytes straddling two entries: the garbage name length panics the decoder with the directory lock held")
 				}
-				g := guardedByS(h, call.Block(), cookie, mk, 0)
-				R.Analysed[FuncName(h)] = true
-				R.Check(g, id, h.Name()+"|cookie entry-aligned", P.Pos(call.Pos()), "the scan starts only at a cookie that is a multiple of DIRENTSZ", "guard dominates", "a cookie such as 1 makes the scan decode bytes straddling two entries: the garbage name length panics the decoder with the directory lock held")
 			}
 		}
 	}
@@ -236,6 +275,19 @@ func canonPath(v ssa.Value, sub Subst) (*ssa.Parameter, string) {
 	for i := 0; i < 6; i++ {
 		pm, p := paramFieldPath(v)
 		if pm == nil {
+			// a variable captured by a function literal: the enclosing function's cell
+			if fv, p2, ok := freeVarFieldPath(v); ok {
+				if a, bound := sub[fv]; bound {
+					switch {
+					case path == "":
+						path = p2
+					case p2 != "":
+						path = p2 + "." + path
+					}
+					v = a
+					continue
+				}
+			}
 			return nil, ""
 		}
 		switch {
@@ -1389,3 +1441,30 @@ func ruleDirKind(c *Ctx, id string) {
 
 // byFuncS: byFunc for the two-result and the one-result forms used with the panic table.
 func byFuncS(m map[string]string, key string) (string, bool) { return byFunc(m, key) }
+
+// freeVarFieldPath: v is (a load of) field path F of a captured variable.
+func freeVarFieldPath(v ssa.Value) (*ssa.FreeVar, string, bool) {
+	v = stripConv(v)
+	var path []string
+	for i := 0; i < 8; i++ {
+		switch x := v.(type) {
+		case *ssa.Field:
+			path = append([]string{fieldNameOfValue(x)}, path...)
+			v = x.X
+			continue
+		case *ssa.UnOp:
+			if x.Op == token.MUL {
+				v = x.X
+				continue
+			}
+		case *ssa.FieldAddr:
+			path = append([]string{fieldNameAt(x)}, path...)
+			v = x.X
+			continue
+		case *ssa.FreeVar:
+			return x, strings.Join(path, "."), true
+		}
+		break
+	}
+	return nil, "", false
+}
